@@ -191,6 +191,21 @@ def f_arith(op, a, b):
     return ("f", math.nextafter(lo, -math.inf), math.nextafter(hi, math.inf), nan)
 
 
+def direct_mutators(ft, key):
+    """call sites one of whose arguments is itself a mutable reference to place `key` (through reborrows only);
+    calls that merely receive something derived from such a reference (a slice from deref_mut) are not included"""
+    out = []
+    for c in ft.calls():
+        for a in c.args:
+            x = a
+            while x[0] == "deref" or (x[0] == "ref" and x[2][0] == "deref"):
+                x = x[1] if x[0] == "deref" else x[2]
+            if x[0] == "ref" and x[1] in (True, "raw") and x[3] == key:
+                out.append(c)
+                break
+    return out
+
+
 class Oblig:
     __slots__ = ("key", "kind", "fn", "where", "status", "detail", "ctx", "float_dep", "input_dep")
 
@@ -399,7 +414,7 @@ class FnCtx:
         maxr = 40
         while True:
             rounds += 1
-            self.memo = {}
+            self.reset_caches()
             for t, b in tg:
                 self.av(t, b)
             changed = False
@@ -417,13 +432,13 @@ class FnCtx:
                 break
         # narrowing
         for _ in range(3):
-            self.memo = {}
+            self.reset_caches()
             for t, b in tg:
                 self.av(t, b)
             for phi in list(self.seen_phis):
                 new = self.phi_join(phi)
                 self.phi[phi] = meet(self.phi.get(phi, BOT), new) if self.phi.get(phi, BOT)[0] != "b" else new
-        self.memo = {}
+        self.reset_caches()
         self.final = True
         rets = [self.av(self.ft.return_term(b), b) for b in self.ft.return_blocks() if self.block_live(b)]
         r = BOT
@@ -434,6 +449,13 @@ class FnCtx:
         self.ret = r
         self.solved = True
         return r
+
+    def reset_caches(self):
+        self.memo = {}
+        self._facts_memo = {}
+        self._vsum = {}
+        if hasattr(self, "_lemmas"):
+            del self._lemmas
 
     def phi_join(self, phi):
         out = BOT
@@ -446,7 +468,52 @@ class FnCtx:
         return out
 
     # ------------------------------------------------------------------ liveness of blocks under known branch values
+    def live_blocks(self):
+        """blocks reachable from the entry along edges that are feasible for the abstract value of each switch"""
+        lb = self.memo.get("live_blocks")
+        if lb is not None:
+            return lb
+        self.memo["live_blocks"] = self.ft.cfg.reach  # while computing: everything
+        seen = {0}
+        st = [0]
+        while st:
+            p = st.pop()
+            for s_ in self.ft.cfg.succ[p]:
+                if s_ in seen:
+                    continue
+                if self.switch_edge_feasible(p, s_):
+                    seen.add(s_)
+                    st.append(s_)
+        self.memo["live_blocks"] = seen
+        return seen
+
+    def switch_edge_feasible(self, p, b):
+        t = self.ft.blocks[p]["term"]
+        if t["k"] != "switch":
+            return True
+        v = self.av(self.ft.switch_term(p), p)
+        if v[0] == "b":
+            return False
+        if v[0] != "i":
+            return True
+        vals, other = switch_edge_values(t, b)
+        excl = [int(x) for x, bb in t["targets"] if bb != b]
+        vs = ivals(v)
+        if vs is not None:
+            return any((x in vals) or (other and x not in excl) for x in vs)
+        if any(v[1] <= x <= v[2] for x in vals):
+            return True
+        if other:
+            span = v[2] - v[1] + 1
+            return span > len(excl) or any(x not in excl for x in range(v[1], v[2] + 1))
+        return False
+
     def block_live(self, b):
+        if self.final and b not in self.live_blocks():
+            return False
+        return self._block_live_dom(b)
+
+    def _block_live_dom(self, b):
         for d, vals, other, excl, sb in self.ft.conditions(b):
             v = self.av(d, sb)
             if v[0] == "i" and v[1] == v[2]:
@@ -908,7 +975,9 @@ class FnCtx:
                             lo = max(lo, math.ceil(bound))
                 if lo > hi:
                     return r
-                return I(lo, hi)
+                if lo == r[1] and hi == r[2]:
+                    return r
+                return I(lo, hi, r[3] if len(r) > 3 else None)
         for co, k in fs:
             c = co.get(a)
             if not c:
@@ -948,7 +1017,12 @@ class FnCtx:
                     ch = True
         if lo > hi:
             return r  # contradictory facts: dead code; keep the unrefined value
-        return I(lo, hi)
+        if lo == r[1] and hi == r[2] and not nes:
+            return r
+        vs = r[3] if len(r) > 3 else None
+        if vs is not None and nes:
+            vs = frozenset(v for v in vs if v not in nes)
+        return I(lo, hi, vs)
 
     def atom_range(self, a, at):
         """interval of an atom without using facts (avoids circularity)"""
@@ -1020,7 +1094,8 @@ class FnCtx:
             op = t[1]
             if op == "Neg":
                 if a[0] == "i":
-                    return fit(I(-a[2], -a[1]), self.ft.tyof(t[2]))
+                    sv = ivals(a)
+                    return fit(I(-a[2], -a[1], frozenset(-x for x in sv) if sv is not None else None), self.ft.tyof(t[2]))
                 if a[0] == "f":
                     return F(-a[2], -a[1], a[3])
             if op == "Not":
@@ -1035,11 +1110,14 @@ class FnCtx:
         if tag == "cast":
             return self.av_cast(t, at, edge)
         if tag == "ref":
-            return R(self.av(t[2], at, edge))
+            inner = self.av(t[2], at, edge)
+            return BOT if inner[0] == "b" else R(inner)
         if tag == "deref":
             a = self.av(t[1], at, edge)
             if a[0] == "r":
                 return a[1]
+            if a[0] == "b":
+                return BOT
             return self.top_for(t)
         if tag == "field":
             a = self.av(t[1], at, edge)
@@ -1087,6 +1165,8 @@ class FnCtx:
             return self.top_for(t) if self.ft.tyof(t) else I(0, 255)
         if tag in ("index", "cindex"):
             a = self.av(t[1], at, edge)
+            if a[0] == "b":
+                return BOT
             if a[0] == "v":
                 if tag == "cindex" and a[3] is not None and not t[3] and t[2] < len(a[3]):
                     return a[3][t[2]]
@@ -1106,6 +1186,8 @@ class FnCtx:
             base = self.av(t[1], at, edge)
             val = self.av(t[3], at, edge)
             proj = t[2]
+            if base[0] == "b" or val[0] == "b":
+                return BOT
             if base[0] == "s" and len(proj) == 1 and proj[0][0] == "field":
                 d = dict(base[1])
                 d[str(proj[0][1])] = val
@@ -1181,22 +1263,27 @@ class FnCtx:
         ty = self.ft.tyof(t[2]) or ""
         if op in CMP:
             if a[0] == "i" and b[0] == "i":
+                res = None
                 if op == "Lt":
-                    return I(1, 1) if a[2] < b[1] else (I(0, 0) if a[1] >= b[2] else I(0, 1))
-                if op == "Le":
-                    return I(1, 1) if a[2] <= b[1] else (I(0, 0) if a[1] > b[2] else I(0, 1))
-                if op == "Gt":
-                    return I(1, 1) if a[1] > b[2] else (I(0, 0) if a[2] <= b[1] else I(0, 1))
-                if op == "Ge":
-                    return I(1, 1) if a[1] >= b[2] else (I(0, 0) if a[2] < b[1] else I(0, 1))
-                if op == "Eq":
+                    res = I(1, 1) if a[2] < b[1] else (I(0, 0) if a[1] >= b[2] else None)
+                elif op == "Le":
+                    res = I(1, 1) if a[2] <= b[1] else (I(0, 0) if a[1] > b[2] else None)
+                elif op == "Gt":
+                    res = I(1, 1) if a[1] > b[2] else (I(0, 0) if a[2] <= b[1] else None)
+                elif op == "Ge":
+                    res = I(1, 1) if a[1] >= b[2] else (I(0, 0) if a[2] < b[1] else None)
+                elif op == "Eq":
                     if a[1] == a[2] == b[1] == b[2]:
-                        return I(1, 1)
-                    return I(0, 0) if (a[2] < b[1] or b[2] < a[1]) else I(0, 1)
-                if op == "Ne":
+                        res = I(1, 1)
+                    elif a[2] < b[1] or b[2] < a[1]:
+                        res = I(0, 0)
+                elif op == "Ne":
                     if a[1] == a[2] == b[1] == b[2]:
-                        return I(0, 0)
-                    return I(1, 1) if (a[2] < b[1] or b[2] < a[1]) else I(0, 1)
+                        res = I(0, 0)
+                    elif a[2] < b[1] or b[2] < a[1]:
+                        res = I(1, 1)
+                if res is not None:
+                    return res
             # relational: try the facts
             if at is not None and a[0] == "i" and b[0] == "i":
                 la, lb = self.linear(t[2], at), self.linear(t[3], at)
@@ -1226,6 +1313,11 @@ class FnCtx:
         if a[0] != "i" or b[0] != "i":
             return self.top_for(t) if self.ft.tyof(t) else top_of_type(ty, self.facts)
         base = op.replace("WithOverflow", "").replace("Unchecked", "")
+        sa, sb_ = ivals(a), ivals(b)
+        setres = None
+        if sa is not None and sb_ is not None and len(sa) * len(sb_) <= 64 and base in ("Add", "Sub", "Mul"):
+            fn = {"Add": lambda x, y: x + y, "Sub": lambda x, y: x - y, "Mul": lambda x, y: x * y}[base]
+            setres = frozenset(fn(x, y) for x in sa for y in sb_)
         if base == "Add":
             r = i_add(a, b)
         elif base == "Sub":
@@ -1271,6 +1363,8 @@ class FnCtx:
             r = I(*int_range(ty)) if int_range(ty) else TOP
         if r[0] == "b":
             return BOT
+        if setres is not None and r[0] == "i":
+            r = I(r[1], r[2], setres)
         if op.endswith("WithOverflow"):
             # tuple (wrapped result, overflow flag): only reached through mk_field normally
             return S({"0": fit(r, ty), "1": I(0, 1)})
@@ -1550,9 +1644,78 @@ class FnCtx:
 
     def len_lemmas(self, at):
         """facts about length atoms: exact lengths of vectors whose construction is visible"""
+        if not hasattr(self, "_lemmas"):
+            self._lemmas = self._compute_len_lemmas()
+        return self._lemmas
+
+    def _compute_len_lemmas(self):
         out = []
-        if not hasattr(self, "_lemma_cache"):
-            self._lemma_cache = {}
+        ft = self.ft
+        from .query import loops_of, every_iteration
+        if not hasattr(self, "_loops"):
+            self._loops = loops_of(ft)
+        for local, decl in enumerate(self.fn["locals"]):
+            if not decl["ty"].startswith("std::vec::Vec<"):
+                continue
+            key = "_%d" % local
+            creators = []
+            for b in sorted(ft.cfg.reach):
+                for pos in ft._defs[b].get(local, []):
+                    kind = ft._kinds[(b, pos, local)]
+                    if kind[0] in ("assign", "call") and not (kind[0] == "assign" and kind[1]["place"]["proj"]):
+                        creators.append((b, pos))
+            if len(creators) != 1:
+                continue
+            cb, cpos = creators[0]
+            ct = ft.def_term(cb, cpos, local)
+            muts = [c for c in direct_mutators(ft, key) if not any((c.callee or "").endswith(s_) for s_ in LEN_PRESERVING)]
+            atom0 = ("L", key, ("ev", cb, cpos))
+            if not muts:
+                # length fixed at creation
+                if ct[0] == "call" and isinstance(ct[1], str) and ct[1].endswith("vec::from_elem") and len(ct[2]) == 2:
+                    ln = self.linear(ct[2][1], cb)
+                    if ln is not None and not any(isinstance(a, tuple) and a and a[0] == "phi" for a in ln[0]):
+                        co = {atom0: 1}
+                        for a, c_ in ln[0].items():
+                            co[a] = co.get(a, 0) - c_
+                        out.append((co, -ln[1]))
+                        out.append(({a: -c_ for a, c_ in co.items()}, ln[1]))
+                elif ct[0] == "agg" and ct[1] == "vec":
+                    out.append(({atom0: 1}, -len(ct[3])))
+                    out.append(({atom0: -1}, len(ct[3])))
+                continue
+            # one push per iteration of a loop over a collection with a length atom
+            if len(muts) == 1 and (muts[0].callee or "").endswith("Vec::push"):
+                c = muts[0]
+                cav = self.av(ct, cb)
+                if not (cav[0] == "v" and cav[1][0] == "i" and cav[1][1] == cav[1][2] == 0):
+                    continue
+                lps = [lp for lp in self._loops if c.block in lp.own and lp.next and cb not in lp.body]
+                outer = [lp for lp in self._loops if c.block in lp.body and cb not in lp.body]
+                if len(lps) != 1 or len(outer) != 1:
+                    continue
+                lp = lps[0]
+                if not every_iteration(ft, lp, c.block):
+                    continue
+                exits = [(x, y) for x, y in lp.exits if x != lp.item_switch and ft.blocks[y]["term"]["k"] != "unreachable"]
+                if any(ft.cfg.can_reach(y, lp.head) or not self._exit_leaves(y, cb) for x, y in exits):
+                    continue
+                ad, base = self.iter_chain(lp.item[2])
+                if ad is None or any(isinstance(a, tuple) for a in ad):
+                    continue
+                src = None
+                if base[0] == "param" or (base[0] == "deref" and base[1][0] == "param"):
+                    pr = base if base[0] == "param" else base[1]
+                    src = ("L", "param", pr[1])
+                if src is None:
+                    continue
+                # the version of the vector seen after the loop: a join marker at the loop head
+                ver = ("join", lp.head)
+                atom1 = ("L", key, ver)
+                out.append(({atom1: 1, src: -1}, 0))     # len <= len(src) at any time
+                # after the loop has finished the lengths are equal: stated for uses that the loop exit dominates
+                self._after_loop = getattr(self, "_after_loop", {})
+                self._after_loop[atom1] = (lp, src)
         return out
 
     # ------------------------------------------------------------------ vectors built by pushes
@@ -1584,12 +1747,13 @@ class FnCtx:
             return self._vsum[local]
         self._vsum[local] = None
         ft = self.ft
-        from .query import loops_of, every_iteration, mutators_of
+        from .query import loops_of, every_iteration
         key = "_%d" % local
         if not hasattr(self, "_loops"):
             self._loops = loops_of(ft)
-        muts = [c for c in mutators_of(ft, key) if not any((c.callee or "").endswith(s_) for s_ in LEN_PRESERVING)]
-        if not muts:
+        allm = direct_mutators(ft, key)
+        muts = [c for c in allm if not any((c.callee or "").endswith(s_) for s_ in LEN_PRESERVING)]
+        if not allm:
             return None
         if not all((c.callee or "").endswith("Vec::push") for c in muts):
             self._vsum[local] = None
@@ -1625,9 +1789,105 @@ class FnCtx:
             lo += nlo
             hi = min(MAXLEN, hi + nhi)
             elem = join(elem, self.av(c.args[1], c.block))
+        # element values written in place: stores through index_mut in this function, stores done by local callees
+        # that receive the vector (or a slice of it) mutably, anything else unknown
+        ety = top_of_type(self.fn["locals"][local]["ty"], self.facts)
+        ety = ety[2] if ety[0] == "v" else TOP
+        for c in allm:
+            if c in muts:
+                continue
+            name = c.callee or ""
+            if name.endswith("IndexMut<I>>::index_mut"):
+                # find the store through the returned pointer
+                stored = None
+                for (sb, spos, pl, rv) in ft.stores:
+                    if rv is None:
+                        continue
+                    ptr = ft.local_at(pl["local"], sb, spos)
+                    if ptr[0] == "call" and len(ptr) > 3 and ptr[3] == (ft.path, c.block):
+                        v = self.av(ft.rvalue(rv, sb, spos), sb)
+                        stored = v if stored is None else join(stored, v)
+                elem = join(elem, stored if stored is not None else ety)
+            elif any(name.endswith(s_) for s_ in ("::deref_mut", "::as_mut_slice", "::iter_mut")):
+                # the slice flows on: look at what the users of that slice do (local callees only)
+                elem = join(elem, self._slice_user_stores(c, ety))
+            elif any(name.endswith(s_) for s_ in ("::reverse", "::sort", "::sort_unstable", "::sort_by", "::swap", "::sort_by_key", "::sort_unstable_by")):
+                pass
+            elif name in self.facts.fns:
+                elem = join(elem, self._callee_stores(name, c, key, ety))
+            else:
+                elem = join(elem, ety)
         res = ((lo, hi), cav[1][1], elem if elem[0] != "b" else TOP, blocks)
         self._vsum[local] = res
         return res
+
+    def _slice_user_stores(self, c, ety):
+        """join of values stored by local callees that receive the slice produced at call site c"""
+        ft = self.ft
+        out = BOT
+        found = False
+        for c2 in ft.calls():
+            for ai, a in enumerate(c2.args):
+                hit = any(x[0] == "call" and len(x) > 3 and x[3] == (ft.path, c.block) for x in walk(a))
+                if not hit:
+                    continue
+                found = True
+                if c2.callee in self.facts.fns:
+                    out = join(out, self._callee_param_stores(c2, ai, ety))
+                elif c2.callee and any(c2.callee.endswith(s_) for s_ in ("::reverse", "::sort", "::sort_unstable", "::sort_by", "::swap", "::len")):
+                    pass
+                else:
+                    out = join(out, ety)
+        # direct stores through the slice pointer in this function
+        for (sb, spos, pl, rv) in ft.stores:
+            if rv is None:
+                continue
+            ptr = ft.local_at(pl["local"], sb, spos)
+            if any(x[0] == "call" and len(x) > 3 and x[3] == (ft.path, c.block) for x in walk(ptr)):
+                found = True
+                out = join(out, self.av(ft.rvalue(rv, sb, spos), sb))
+        return out if found else BOT
+
+    def _callee_stores(self, name, c, key, ety):
+        out = BOT
+        for ai, a in enumerate(c.args):
+            if any(x[0] == "ref" and x[1] in (True, "raw") and x[3] == key for x in walk(a)):
+                out = join(out, self._callee_param_stores(c, ai, ety))
+        return out
+
+    def _callee_param_stores(self, c2, ai, ety):
+        """values the local callee of call site c2 stores through its parameter number ai (any context of it analysed so far)"""
+        out = BOT
+        seen = False
+        # make sure the callee has been analysed for this call site
+        try:
+            cargs = tuple(self.av(a, c2.block) for a in c2.args)
+            f = self.facts.fns[c2.callee]
+            if f["kind"] in ("Fn", "AssocFn") and len(cargs) == f["arg_count"] and not any(a[0] == "b" for a in cargs):
+                self.eng.summary(c2.callee, cargs, caller=(self.path, self.args, c2.block))
+        except RecursionError:
+            pass
+        for (path, args), cc in list(self.eng.ctxs.items()):
+            if path != c2.callee or not cc.solved:
+                continue
+            if (self.path, self.args, c2.block) not in self.eng.callers.get((path, args), ()):
+                continue
+            seen = True
+            cft = cc.ft
+            for (sb, spos, pl, rv) in cft.stores:
+                root = cft.local_at(pl["local"], sb, spos)
+                if not any(x == ("param", ai + 1) for x in walk(root)) and pl["local"] != ai + 1:
+                    continue
+                if rv is None:
+                    out = join(out, ety)
+                else:
+                    out = join(out, cc.av(cft.rvalue(rv, sb, spos), sb))
+            # the callee may pass the pointer on
+            for c3 in cft.calls():
+                if c3.callee and not any(c3.callee.endswith(s_) for s_ in LEN_PRESERVING) and any(("param", ai + 1) in list(walk(a)) for a in c3.args):
+                    if c3.callee in self.facts.fns:
+                        out = join(out, ety)
+        return out if seen else ety
 
     def _exit_leaves(self, y, cb):
         """does the loop exit through block y leave the function with an error (never reaching a normal use)?"""
